@@ -113,7 +113,7 @@ def c13_case(r):
     if k == 3:  # exactly 7 distinct characters in the encoded text
         for _ in range(50):
             alpha = bytes(r.sample(range(256), 3))
-            p = bytes(r.choice(alpha) for _ in range(18))
+            p = bytes(r.choice(alpha) for _ in range(r.choice([18, 18, 16, 17, 19, 20])))  # padded forms: '=' counts as a character
             t = base64.b64encode(p)
             if len(set(t)) == 7 and B64_ENC.dom(p):
                 return from_encoder(r, "b64", p)
@@ -125,6 +125,18 @@ def c13_case(r):
             if 0 < t.count(b"/") / len(t) <= 3 / 32 and B64_ENC.dom(p):
                 return from_encoder(r, "b64", p)
         return None
+    if k == 11 and r.random() < 0.5:  # the same bare encoding twice, the inner text being the whole value of the outer node
+        p = rand_payload(r, r.randint(16, 40), bytes(range(32, 127)))
+        name = r.choice(["b64", "hex", "HEX"])
+        e = layers.BY_NAME[name]
+        inner = e.enc(p, r)
+        if not e.dom(p) or not e.dom(inner):
+            return None
+        outer = e.enc(inner, r)
+        rec = rec_single(r, name, e.type, e.label, outer, inner, wrap_p=0)
+        rec["layers"].append({"name": name, "type": e.type, "label": e.label, "plain": p, "value": p, "inner_off": 0})
+        rec["payload"] = p
+        return rec
     if k == 12:  # boundary of the "not pure hex" rule: hex digits plus a single sign / prefix character
         n = r.choice([24, 28, 32])
         head = r.choice([b"+", b"0x", b"0X", b"+0x", b"-"[:0] + b"/", b"x"])
@@ -198,6 +210,11 @@ def c13_xor_case(r):
         # the key applies to every conversion call in the text: a second call of the other form, same payload
         other = layers.BY_NAME["FromHexString" if form == "b64" else "FromBase64String"].enc(p, r)
         blob = blob + b" ; " + other
+        if r.random() < 0.4:
+            # a third conversion of the first form with a payload of another length (not asserted by construction: every
+            # node in the result is still judged by the soundness monitors and by the tree-shape checks)
+            q = rand_payload(r, r.choice([4, 11, 90]))
+            blob = layers.BY_NAME["FromBase64String" if form == "b64" else "FromHexString"].enc(q, r) + b" ; " + blob if len(q) >= 10 or form == "b64" else blob
     data = (pre + blob + tail) if r.random() < 0.8 else (pre + tail.strip() + b" ; " + blob)
     return data, p, key, form
 
@@ -275,6 +292,17 @@ def c14_case(r):
     except UnicodeEncodeError:
         return {"absent": True, "data": netgen.offsets_prefix(r) + blob + b" " + netgen.neutral_text(r), "blob": blob, "label": "function.chr"}
     return rec_single(r, "chr", "string", "function.chr", blob, plain)
+
+
+def c14_utf16_pair(r):
+    """Two wide runs separated by 1, 3 or 5 NUL bytes (the second run is not aligned with the first): two expressions."""
+    allowed = bytes(range(0x21, 0x7F))
+    a = bytes(r.choice(allowed) for _ in range(r.choice([7, 8, 12])))
+    b = bytes(r.choice(allowed) for _ in range(r.choice([7, 9, 12])))
+    gap = b"\x00" * r.choice([1, 3, 5])
+    ra = a.decode("latin-1").encode("utf-16-le")
+    rb = b.decode("latin-1").encode("utf-16-le")
+    return a, b, b"zq " + ra + gap + rb + b" qz", 3, 3 + len(ra) + len(gap)
 
 
 def c14_chr_sequence(r):
